@@ -279,5 +279,5 @@ def main(tier=None, replay=None):
     ck.assumptions += ['zero delay on fork inputs (strip_forks ignores them by design)', 'delay selection modes 0 and 1 (mode 2 is random by design); capture with sd = 0',
                        'GPU path = kernels run through MockCuda', 'TLC, JSON reader; digests of raw array bytes']
     return ck.finish('seeded random circuits (both styles) x stimuli x delay datasets: reference run vs variants over {WaveSim, WaveSimCuda} x {c_reuse} x '
-                     '{strip_forks} x allocated lanes x lane permutations x c_prop(sims=k) x dataset selection modes 0/1; LogicSim m=2/4/8 across options, '
+                     '{strip_forks} x allocated lanes x lane permutations x c_prop(sims=k) x dataset selection modes 0/1 (also mixed per lane) x a second clock cycle x c_prop() twice x WaveSimCuda batches of up to ~100 lanes; LogicSim m=2/4/8 across options, '
                      'batch sizes, permutations and the callback path; distinct by case digest')
